@@ -242,3 +242,11 @@ func randUID(rng *mrand.Rand) []byte {
 	}
 	return b
 }
+
+func muxObfuscator(method byte, key [32]byte) (mux.Obfuscator, error) {
+	return mux.MakeObfuscator(method, key)
+}
+
+func muxSession(id uint32, o mux.Obfuscator) *mux.Session {
+	return mux.MakeSession(id, mux.SessionConfig{Obfuscator: o, MsgOnWireSizeLimit: appDataMaxLength, InactivityTimeout: 100 * time.Hour})
+}
